@@ -40,7 +40,7 @@ def run(ctx):
     for e in [x for x in ev if x["op"] == "vrf.Prove"][:1] + [x for x in ev if x["op"] == "vrf.Verify"][:3]:
         ctx.samples.append(slim(e))
     vlib.call_history_model(ctx)
-    vlib.call_histories(ctx, binp, ev, ["vrf.Prove"], "EcvrfTrace", "ECVRF Prove differs from RFC 9381 as specified")
+    vlib.call_histories(ctx, binp, ev, ["vrf.Prove", "vrf.Verify"], "EcvrfTrace", "ECVRF Prove / Verify differs from RFC 9381 as specified")
     bad = vlib.validate_trace(ctx, "EcvrfTrace", ev)
     for e in vlib.reproduce(ctx, binp, bad, history=ev):
         ctx.bad.append(dict(event=slim(e), reason="ECVRF Prove/Verify/decoding differs from RFC 9381 as specified (hash inputs, scalars, verdict or canonical decoding)"))
